@@ -336,131 +336,79 @@ func opOrNone(t token.Token) string {
 	return t.String()
 }
 
-// c01ReleaseFuncs: the functions that make up the release (bound method, or the inner closure of a factory).
+// c01ReleaseFuncs: the functions that make up the release (bound method, closure, or the closure a factory returns).
 func c01ReleaseFuncs(p *Prog, relVal ssa.Value) []*ssa.Function {
 	if relVal == nil {
 		return nil
 	}
-	v := strip(relVal, false)
-	switch x := v.(type) {
-	case *ssa.MakeClosure:
-		fn := p.unwrap(x.Fn.(*ssa.Function))
+	if fn, _ := p.funcValueFrame(relVal, nil); fn != nil {
 		return []*ssa.Function{fn}
-	case *ssa.Call:
-		c := p.CallOf(x)
-		var factory *ssa.Function
-		if c.Static != nil {
-			factory = c.Static
-		}
-		if factory != nil {
-			return append([]*ssa.Function{}, factory.AnonFuncs...)
-		}
 	}
 	return nil
 }
 
-// c01Release checks that the release value decrements the strategy's counter by 1 exactly once.
+// c01Release checks that the release value decrements the strategy's counter by 1 exactly once. The release may be a
+// bound method of the strategy, a closure, a bound method of a small carrier struct or the closure returned by a
+// factory: the counter it updates is named in TryAcquire's frame (frames.go) and must be recv.<counter>.
 func c01Release(p *Prog, s *c01Strat, relVal ssa.Value, recv ssa.Value) string {
-	v := strip(relVal, false)
-	switch x := v.(type) {
-	case *ssa.MakeClosure:
-		r := boundReceiver(x)
-		fn := p.unwrap(x.Fn.(*ssa.Function))
-		if r == nil {
-			return "release is a closure of unrecognised shape"
+	fn, fr := p.funcValueFrame(relVal, nil)
+	if fn == nil || fn.Blocks == nil {
+		return "release function of unrecognised shape: " + valueString(strip(relVal, false))
+	}
+	why := ""
+	n := 0
+	EnumPaths(fn, 1000, func(pa *Path) bool {
+		if !pa.IsReturn() {
+			return true
 		}
-		if AccessPath(r).Root != recv {
-			return "the release method is bound to a different strategy object"
-		}
-		why := ""
-		n := 0
-		EnumPaths(fn, 1000, func(pa *Path) bool {
-			if !pa.IsReturn() {
+		n++
+		cnt, sum := 0, int64(0)
+		var others []string
+		pa.Each(func(step int, ins ssa.Instruction) bool {
+			d, ok := p.DeltaOf(ins)
+			var target AP
+			var by int64
+			if ok {
+				by = d.By
+				if st, isStore := ins.(*ssa.Store); isStore {
+					target = p.OuterAP(st.Addr, fr)
+				} else {
+					target = p.OuterAP(p.CallOf(ins).Args[0], fr)
+				}
+			} else if call, isCall := ins.(*ssa.Call); isCall {
+				c := p.CallOf(call)
+				if atomicOpOf(c.Name) != "Add" || len(c.Args) != 2 {
+					return true
+				}
+				k, isC := constInt(c.Args[1])
+				if !isC {
+					others = append(others, fmt.Sprintf("%s: adds %s", p.At(ins), operandString(c.Args[1])))
+					return true
+				}
+				by = k
+				target = p.OuterAP(c.Args[0], fr)
+			} else {
 				return true
 			}
-			n++
-			cnt, sum := 0, int64(0)
-			pa.Each(func(step int, ins ssa.Instruction) bool {
-				if d, ok := p.DeltaOf(ins); ok && sameField(d.Field, s.Cnt) && AccessPath(d.Base).Root == ssa.Value(fn.Params[0]) {
-					cnt++
-					sum += d.By
-				}
-				return true
-			})
-			if cnt != 1 || sum != -1 {
-				why = fmt.Sprintf("%s changes the counter %d times by %+d in sum on a path (want once, -1)", p.Key(fn), cnt, sum)
-				return false
+			if target.Root == recv && len(target.Fields) == 1 && sameField(target.Fields[0], s.Cnt) {
+				cnt++
+				sum += by
+			} else {
+				others = append(others, fmt.Sprintf("%s: updates %s by %+d", p.At(ins), target.String(), by))
 			}
 			return true
 		})
-		if n == 0 {
-			return "release method has no returning path"
-		}
-		return why
-	case *ssa.Call:
-		// factory(ptr) returning func(){ atomic.Add(ptr, -1) }
-		c := p.CallOf(x)
-		if c.Static == nil || len(c.Static.AnonFuncs) != 1 {
-			return "release is built by a call of unrecognised shape"
-		}
-		inner := c.Static.AnonFuncs[0]
-		why := ""
-		n := 0
-		EnumPaths(inner, 1000, func(pa *Path) bool {
-			if !pa.IsReturn() {
-				return true
+		if cnt != 1 || sum != -1 {
+			why = fmt.Sprintf("%s changes the strategy's counter %d times by %+d in sum on a path (want once, -1)", p.Key(fn), cnt, sum)
+			if len(others) > 0 {
+				why += "; it " + strings.Join(others, "; ")
 			}
-			n++
-			cnt := 0
-			pa.Each(func(step int, ins ssa.Instruction) bool {
-				call, ok := ins.(*ssa.Call)
-				if !ok {
-					return true
-				}
-				cc := p.CallOf(call)
-				if atomicOpOf(cc.Name) != "Add" || len(cc.Args) != 2 {
-					return true
-				}
-				k, isC := constInt(cc.Args[1])
-				if !isC || k != -1 {
-					why = fmt.Sprintf("%s: the release adds %s to the counter (want -1)", p.At(ins), operandString(cc.Args[1]))
-					return true
-				}
-				// pointer: captured variable bound to a parameter of the factory
-				ap := AccessPathThroughClosures(cc.Args[0])
-				prm, ok := ap.Root.(*ssa.Parameter)
-				if !ok || prm.Parent() != c.Static || len(ap.Sel) != 0 {
-					why = fmt.Sprintf("%s: the release decrements something other than the pointer it was built for", p.At(ins))
-					return true
-				}
-				// the argument given for that parameter at the factory call: the strategy's counter pointer
-				pi := -1
-				for i, q := range c.Static.Params {
-					if q == prm {
-						pi = i
-					}
-				}
-				if pi < 0 || pi >= len(x.Call.Args) {
-					why = "cannot bind the release's pointer to the factory call"
-					return true
-				}
-				fr, base, ok := fieldPointerLoad(x.Call.Args[pi])
-				if !ok || !sameField(fr, s.Cnt) || AccessPath(base).Root != recv {
-					why = fmt.Sprintf("%s: the release closure is built over %s, not over the strategy's in-flight counter", p.At(x), operandString(x.Call.Args[pi]))
-					return true
-				}
-				cnt++
-				return true
-			})
-			if why == "" && cnt != 1 {
-				why = fmt.Sprintf("the release closure decrements the counter %d times on a path (want once)", cnt)
-			}
-			return why == ""
-		})
-		if n == 0 && why == "" {
-			return "release closure has no returning path"
+			return false
 		}
-		return why
+		return true
+	})
+	if n == 0 {
+		return "release function has no returning path"
 	}
-	return "release function of unrecognised shape: " + valueString(v)
+	return why
 }
